@@ -4,7 +4,7 @@ use super::hist::*;
 use super::monitors;
 use crate::explore::Chooser;
 use crate::report::*;
-use crate::wgen::{W1, W2, W3, W3B, W4, W6, W7, WD1, WE1, WE2};
+use crate::wgen::{W1, W2, W3, W3B, W4, W6, W7, WD1, WD2, WE1, WE2};
 use crate::world::Cfg;
 use serde_json::{Value, json};
 use std::collections::BTreeMap;
@@ -142,7 +142,7 @@ fn scenarios_of(prop: &str, tier: Tier) -> Vec<HScn> {
             }
         }
         "C11" => {
-            for (i, y) in [W1, W2, W3, W4, W6, W7, WE1, WE2, WD1].into_iter().enumerate() {
+            for (i, y) in [W1, W2, W3, W6, W4, W7, WE1, WE2, WD1, WD2].into_iter().enumerate() {
                 for sqlite in [false, true] {
                     for keep in [false, true] {
                         if q && sqlite && keep {
@@ -150,7 +150,15 @@ fn scenarios_of(prop: &str, tier: Tier) -> Vec<HScn> {
                         }
                         let mut c = full_cfg(2);
                         c.terminal_targets = false;
-                        let d = if q { if sqlite || i >= 3 { 0 } else { 1 } } else { 1 };
+                        if y == WD2 {
+                            // options that write variables of two different enclosing tasks at once
+                            for a in c.actions.iter_mut() {
+                                if a.0 == "complete" {
+                                    a.1 = vec![json!({}), json!({"a": 5, "b": 7})];
+                                }
+                            }
+                        }
+                        let d = if q { if sqlite || i >= 4 { 0 } else { 1 } } else { 1 };
                         let mut h = hscn(if sqlite { "image-sqlite" } else { "image" }, y, keep, c, Some(d), 32);
                         if sqlite {
                             h.scn.cfg.sqlite = Some("@scratch".into());
@@ -235,7 +243,7 @@ impl Check for HistCheck {
         let (rule, budget) = match self.prop {
             "C02" => ("base workflows W1-W4 x every sequence of <= L client actions from {complete, submit, skip, remove, abort, error(e1|e2), cancel, back(to every step)} aimed at every interrupt act that exists at that moment (open or already terminal), issued at any quiescent point or (one deviation) racing in-flight work; the oracle follows the reported state sequence of every task", tier.pick(50, 1200)),
             "C03" => ("workflows with two concurrently open regions (two branches, parallel act, nested branch, two acts in a branch) x every sequence of <= L client actions on their acts x both keep_processes settings; oracle: containers complete only over terminal subtrees, process state mirrors the root, one start and one terminal event, nothing open or acted on after a non-error terminal event", tier.pick(50, 1200)),
-            "C11" => ("workflows W1, W2, W3, W4, W6, W7 and three data workflows (env declared in the model, env written by a script, a variable that propagates to the root) x every sequence of <= 2 client actions x both keep_processes settings x both stores; at every quiescent point of every execution the live process (full dump) is compared with the proc row and the task rows: tid set, per task state, prev, data, err, start/end time, per process state, err, env", tier.pick(50, 900)),
+            "C11" => ("workflows W1, W2, W3, W4, W6, W7 and four data workflows (env declared in the model, env written by a script, a variable that propagates to the root, action options that write variables of two enclosing tasks) x every sequence of <= 2 client actions x both keep_processes settings x both stores; at every quiescent point of every execution the live process (full dump) is compared with the proc row and the task rows: tid set, per task state, prev, data, err, start/end time, per process state, err, env", tier.pick(50, 900)),
             "C08" => ("the executions of the C02 history scenarios; oracle: per task at most one created and one terminal message in that order, existence per node kind, every message field equal to the task at generation time, unique ids, parent announced before child", tier.pick(50, 1200)),
             _ => ("admission matrix: from every state reachable by a prefix history, each of the ten action kinds x targets {open act, terminal act, step, branch, root, unknown tid, unknown pid} x option maps (none / all declared outputs / one missing / extra keys); every accepted call must satisfy the admission rule, every rejected terminal-style call returns Err and leaves dump and message stream unchanged", tier.pick(50, 900)),
         };
